@@ -123,10 +123,10 @@ def run(ctx):
                     ctx.loc(f, n))
     # shape of _secure_query
     sq = prog.func(DB + '._secure_query')
-    txt = ' '.join(ast.unparse(sq.node).split())
-    r1.check('model.project_id == security.get_project_id()' in txt and
-             "model.scope == 'public'" in txt and
-             'issubclass(model, mb.MistralSecureModelBase)' in txt,
+    r1.check(U.phas(sq.node, '___.or_(model.project_id == '
+                    "security.get_project_id(), model.scope == 'public')")
+             and U.phas(sq.node, 'issubclass(model, '
+                        'mb.MistralSecureModelBase)'),
              ctx.construct(sq, extra='criterion'),
              '_secure_query criterion is no longer own-project OR public',
              ctx.loc(sq))
@@ -143,15 +143,17 @@ def run(ctx):
                     for d in cfg.dominators(x))
         if not dom_f:
             g = cfg.guards(x)
-            ok = ok and bool(g) and 'issubclass' in ast.unparse(g[0][0]) \
-                and g[0][1] is True and 'not' in ast.unparse(g[0][0])
+            ok = ok and bool(g) and g[0][1] is True and U.phas(
+                g[0][0], 'not issubclass(model, mb.MistralSecureModelBase)')
     r1.check(ok, ctx.construct(sq, extra='filter on every secure path'),
              'a return of _secure_query for a secure model is not dominated '
              'by query.filter(criterion)', ctx.loc(sq))
     ar = prog.func(DB + '._get_accepted_resources')
-    txt = ' '.join(ast.unparse(ar.node).split())
-    r1.check("status == 'accepted'" in txt and
-             'member_id == security.get_project_id()' in txt,
+    flt = [n for n in own_nodes(ar.node) if isinstance(n, ast.Call) and
+           U.call_name(n) == 'filter']
+    r1.check(any(U.phas(c, "___.status == 'accepted'") and
+                 U.phas(c, '___.member_id == security.get_project_id()')
+                 for c in flt),
              ctx.construct(ar, extra='accepted shares of the caller'),
              '_get_accepted_resources no longer filters accepted shares of '
              'the caller', ctx.loc(ar))
@@ -311,10 +313,13 @@ def run(ctx):
              'the assigned value', ctx.loc(sp))
     rh = prog.func(
         'mistral.db.sqlalchemy.model_base.register_secure_model_hooks')
-    txt = ' '.join(ast.unparse(rh.node).split())
-    r4.check('iter_subclasses(MistralSecureModelBase)' in txt and
-             "'set'" in txt and '_set_project_id' in txt and
-             'retval=True' in txt, ctx.construct(rh),
+    okh = False
+    for lp in [n for n in own_nodes(rh.node) if isinstance(n, ast.For)]:
+        if U.phas(lp.iter, '___.iter_subclasses(MistralSecureModelBase)'):
+            var = dotted(lp.target)
+            okh = U.phas(lp, "event.listen(%s.project_id, 'set', "
+                         "_set_project_id, retval=True)" % var)
+    r4.check(okh, ctx.construct(rh),
              'hook registration no longer listens to "set" with '
              'retval=True on every subclass', ctx.loc(rh))
 
@@ -407,8 +412,15 @@ def run(ctx):
     r6 = ctx.rule('R6', 'caller identity comes from the request context',
                   'GD')
     gp = prog.func('mistral.services.security.get_project_id')
-    txt = ' '.join(ast.unparse(gp.node).split())
-    r6.check('auth_enable' in txt and 'auth_ctx.ctx().project_id' in txt,
+    gcfg = ctx.cfg(gp)
+    okp = False
+    for x in gcfg.nodes:
+        if x.kind == 'stmt' and isinstance(x.ast, ast.Return) and \
+                U.phas(x.ast.value, 'auth_ctx.ctx().project_id'):
+            g = [t for (t, pol, _g) in gcfg.guards(x)
+                 if isinstance(t, ast.expr) and pol]
+            okp = any(U.phas(t, 'CONF.pecan.auth_enable') for t in g)
+    r6.check(okp,
              ctx.construct(gp), 'get_project_id no longer returns the '
              'context project when authentication is enabled', ctx.loc(gp))
     um = prog.func(DB + '.update_resource_member')
@@ -430,7 +442,7 @@ def run(ctx):
     for n in own_nodes(gc.node):
         if isinstance(n, ast.Return) and n.value is not None and not (
                 isinstance(n.value, ast.Constant) and n.value.value is None):
-            r6.check('security.get_project_id()' in ast.unparse(n.value),
+            r6.check(U.phas(n.value, '___ == security.get_project_id()'),
                      ctx.construct(gc, n), 'membership criterion without '
                      'the caller project', ctx.loc(gc, n))
 
